@@ -9,16 +9,32 @@ VERIF = os.path.dirname(os.path.dirname(os.path.abspath(__file__)))
 
 
 def main():
-    patch = os.path.abspath(sys.argv[1])
-    ids = sys.argv[2:]
+    edits = []
+    argv = sys.argv[1:]
+    patch = None
+    if argv[0] == '--edit':
+        # --edit <file> <old> <new>  (exact, single occurrence)
+        edits.append((argv[1], argv[2], argv[3]))
+        ids = argv[4:]
+    else:
+        patch = os.path.abspath(argv[0])
+        ids = argv[1:]
     tmp = tempfile.mkdtemp(prefix='xeh-mut-')
     repo = os.path.join(tmp, 'repo')
     try:
         subprocess.check_call(['rsync', '-a', '--exclude', 'target', '--exclude', '.git', '/repo/', repo + '/'])
-        r = subprocess.run(['patch', '-p1', '-s', '-d', repo, '-i', patch])
-        if r.returncode != 0:
-            print('PATCH FAILED')
-            return 3
+        if patch:
+            r = subprocess.run(['patch', '-p1', '-s', '-d', repo, '-i', patch])
+            if r.returncode != 0:
+                print('PATCH FAILED')
+                return 3
+        for (fn, old, new) in edits:
+            pth = os.path.join(repo, fn)
+            src = open(pth).read()
+            if src.count(old) != 1:
+                print('EDIT FAILED: %d occurrences' % src.count(old))
+                return 3
+            open(pth, 'w').write(src.replace(old, new))
         env = dict(os.environ, XEH_REPO=repo, XEH_SCRATCH='1')
         rc_all = {}
         for pid in ids:
